@@ -78,6 +78,7 @@ type Scenario struct {
 	ReuseOpts    int    `json:"reuse_opts,omitempty"`     // ListenAndServe: bit 0 ReusePort, bit 1 ReuseAddr
 	OwnReader    bool   `json:"own_reader,omitempty"`     // tcp / tls: the decorated reader does the reading of stream messages itself (length prefix, then body, straight from the connection) instead of handing on to the server's
 	NoDeadlines  bool   `json:"no_deadlines,omitempty"`   // tcp: the server's connections are of a kind that does not support deadlines; Shutdown cannot interrupt their reads and has to wait for the clients to go - everything else it promises still holds
+	SockoptFail  bool   `json:"sockopt_fail,omitempty"`   // tcp: the connections the server accepts refuse every TCP-only socket option
 	CloseStallMs int    `json:"close_stall_ms,omitempty"` // tcp / tls, instrumented build: closing a connection takes up to this much simulated time
 	ShutB        bool   `json:"shutdown_b,omitempty"`     // a second, concurrent Shutdown
 	Shut3        bool   `json:"shutdown_3,omitempty"`     // a Shutdown after the first has returned
@@ -165,6 +166,7 @@ func Gen(seed uint64, tier string) any {
 	sc.Shut3 = core.Chance(r, 20)
 	if sc.Transport != "udp" {
 		sc.OwnReader = core.Chance(r, 15)
+		sc.SockoptFail = sc.Transport == "tcp" && core.Chance(r, 20)
 		if sc.Transport == "tcp" && core.Chance(r, 8) {
 			sc.NoDeadlines = true
 		} else if core.Chance(r, 10) {
@@ -1037,6 +1039,7 @@ func runIn(sc *Scenario, res *core.Result, verbose bool) {
 		res.Bump("cover.reader_that_supplants_the_servers")
 	}
 	n.SrvNoDeadlines = sc.NoDeadlines && sc.Transport == "tcp"
+	n.SrvSockoptFail = sc.SockoptFail && sc.Transport == "tcp"
 	if sc.CloseStallMs > 0 && n.CloseYields && sc.Transport != "udp" {
 		n.SrvCloseStall = time.Duration(sc.CloseStallMs) * time.Millisecond
 	}
